@@ -8,12 +8,12 @@ PROVED = [PK.symmetric_moving_average]
 PROPERTY = Property(
     "C19", "exploration",
     contracts=PROVED,
-    standins=[StandIn("find_peaks = gap-threshold clusters", B.find_peaks, B.find_peaks.harness),
-              StandIn("hits -> peaks -> sum_waveform: area conservation", B.peak_chain, B.peak_chain.harness),
-              StandIn("replace_merged", B.replace_merged, B.replace_merged.harness),
-              StandIn("merge_peaks", B.merge_peaks, B.merge_peaks.harness),
-              StandIn("sum_waveform on the children of a split", B.sum_waveform_children, B.sum_waveform_children.harness),
-              StandIn("split_peaks tiling (both split finders)", B.split_peaks, B.split_peaks.harness),
+    standins=[StandIn("find_peaks = gap-threshold clusters", B.find_peaks, B.find_peaks.harness, budget={"quick": 3000, "thorough": 40000}),
+              StandIn("hits -> peaks -> sum_waveform: area conservation", B.peak_chain, B.peak_chain.harness, budget={"quick": 3000, "thorough": 40000}),
+              StandIn("replace_merged", B.replace_merged, B.replace_merged.harness, budget={"quick": 3000, "thorough": 40000}),
+              StandIn("merge_peaks", B.merge_peaks, B.merge_peaks.harness, budget={"quick": 3000, "thorough": 40000}),
+              StandIn("sum_waveform on the children of a split", B.sum_waveform_children, B.sum_waveform_children.harness, budget={"quick": 3000, "thorough": 40000}),
+              StandIn("split_peaks tiling (both split finders)", B.split_peaks, B.split_peaks.harness, budget={"quick": 3000, "thorough": 40000}),
               StandIn("store_downsampled_waveform", B.store_downsampled_waveform, B.store_downsampled_waveform.harness),
               StandIn("index_of_fraction = defining formula", B.index_of_fraction, B.index_of_fraction.harness),
               StandIn("highest_density_region = defining formula", B.highest_density_region, B.highest_density_region.harness),
@@ -21,7 +21,8 @@ PROPERTY = Property(
     trusted=["pyvc VC generator and value model", "z3 5.1.0 / cvc5 1.4.0", "ghost prefix sums (definitional axioms)"],
     assumptions=["A3 floating point is modelled over the reals (symmetric_moving_average proof); stand-ins compare with a stated tolerance",
                  "find_peaks, sum_waveform, replace_merged and the peak splitters are NOT proved: bounded stand-ins only",
-                 "area-fraction times, widths and highest-density regions are not covered by this check"],
+                 "widths (compute_widths) are not covered; thorough-tier budgets are capped so that the tier ends within about half an hour"],
     explanation="symmetric_moving_average equals its defining window mean for every waveform and wing width (prefix-sum proof over the "
-                "reals); clustering, area conservation of the summed waveform, replace_merged and split tiling are bounded stand-ins",
+                "reals); clustering, area conservation of the summed waveform, down-sampling, merging, replace_merged, split tiling, the area-fraction "
+                "index and the highest-density region are bounded stand-ins against direct definitions",
 )
